@@ -357,9 +357,10 @@ def strip_visibility(text):
     return re.sub(r"^(\s*)pub(?:\([^)]*\))?\s+", r"\1", text, count=1)
 
 
-def normalise_fn(text, where, applied, rules, literal_subs=()):
+def normalise_fn(text, where, applied, rules, literal_subs=(), keep_visibility=False):
     """text: verbatim fn item (no attributes).  rules: iterable of rule names to apply."""
-    text = strip_visibility(text)   # N0: everything lives in one module of the assembled file
+    if not keep_visibility:
+        text = strip_visibility(text)   # N0: everything lives in one module of the assembled file
     # uniform indentation: keep as is
     if "N4" in rules:
         text = n4_asserts(text, applied, where)
